@@ -91,9 +91,20 @@ Judge(e) ==
     /\ Report(Unschedulable(I, e.lo, e.hi) => R.out = "RuntimeError", e, "C14.diagnosis", 0)
     /\ Report((e.schedulable /\ ~Unschedulable(I, e.lo, e.hi)) => R.out = "ok", e, "C06.returns", 0)
     /\ Report(e.pure.after = e.pure.before, e, "C06.pure", 0)
-    /\ (R.out = "ok" /\ ~Unschedulable(I, e.lo, e.hi) /\ ~I.tod) => JudgeOk(e)   \* the other properties speak of schedulable inputs
+    /\ (R.out = "ok" /\ ~Unschedulable(I, e.lo, e.hi) /\ ~I.tod /\ ~I.noise) => JudgeOk(e)   \* the other properties speak of schedulable inputs
     \* calendars that change within a day: only purity and repeatability are judged
-    /\ (R.out = "ok" /\ I.tod) =>
+    \* float residues the exact model cannot see (flag noise): purity, repeatability, and the one clause of C04 that
+    \* speaks of days only - a start chosen by the scheduler lies on the first reserved day
+    /\ (R.out = "ok" /\ I.noise /\ ~I.tod /\ I.dir = "fwd") =>
+         \A t \in Tasks(I) : (SchedLeaf(I, t) /\ ~StartFixed(I, t) /\ ~EndFixed(I, t) /\ HasRows(R, t) /\ R.start[t] # Missing)
+                                  => Report(DayOf(R.start[t]) = FirstDay(R, t), e, "C04.dates", <<t, "first day">>)
+    /\ (R.out = "ok" /\ I.noise /\ ~I.tod) =>
+         /\ \A t \in Tasks(I) : Report(C07_Order(I, R, t), e, "C07.order", <<t, "noise">>)
+         /\ (I.dir = "bwd" /\ ~BwdFixed(I) /\ \A t \in Tasks(I) : R.start[t] # Missing /\ R.end[t] # Missing) =>
+              \A t \in Tasks(I) :
+                  /\ Report(C09_Deadline(I, R, t), e, "C09.deadline", <<t, "noise">>)
+                  /\ \A p \in PreOf(I, t) \cap Tasks(I) : Report(C09_Dependency(I, R, p, t), e, "C09.dependency", <<t, "noise">>)
+    /\ (R.out = "ok" /\ (I.tod \/ I.noise)) =>
          /\ Report(e.pure.separate, e, "C06.separate", 0)
          /\ Report(e.pure.structout = e.pure.structin, e, "C06.struct", 0)
          /\ \A i \in DOMAIN e.rep : Report(SameResult(R, e.rep[i]), e, "C06.repeat", i)
